@@ -8,7 +8,8 @@ HERE = os.path.dirname(os.path.abspath(__file__))
 CASES = {'quick': 20000, 'thorough': 400000}
 PARALLEL = True
 RULE = ('random lineages (depth<=6, ACL length<=6, missing/empty ACLs; ACL objects as list/tuple/callable returning a list/'
-        'generator method returning a one-shot iterator; permission forms name/list/'
+        'generator method returning a one-shot iterator; permission names incl. proper substrings of each other and every string '
+        'constant the anchored code mentions; str-subclass instances as ACE permission / requested permission / principals; permission forms name/list/'
         'tuple/ALL_PERMISSIONS/empty) x principal subsets x permission; non-trivial = at least one ACE in the '
         'lineage matches principal AND permission (so the decision is not the default deny); distinct by full case')
 ASSUMPTIONS = ['ACE actions are compared with == against the Allow/Deny constants; principals and permissions are str',
@@ -29,7 +30,53 @@ TRUSTED = ['translator harness/c11/translate.py: its PRIMITIVE TABLE (which Pyth
            '(shape-pinned, modelled by hand / by the table)']
 
 PRINCIPALS = ['system.Everyone', 'system.Authenticated', 'alice', 'bob', 'g:ed']
-PERMS = ['view', 'edit', 'del']
+PERMS = ['view', 'edit', 'del', 'vi', 'edit_own']      # with proper substrings of each other ('vi' < 'view', 'edit' < 'edit_own')
+_POOL = []
+# a view registered with this permission is unprotected by design (viewderivers, C05): view_execution_permitted then
+# does not consult the ACL decision at all, so that route is not applicable for this one permission name
+RESERVED = '__no_permission_required__'
+NA = ['not-applicable']
+
+
+def harvest(src):
+    """every short string the anchored code itself knows: module-level NAME = 'literal' of pyramid/security.py and the
+    string literals (docstrings excluded) inside the modelled functions/classes.  A name the code could treat specially
+    must occur there, so these are used as permission names (requested and inside ACEs) next to the ordinary ones."""
+    import ast
+    out = []
+    try:
+        m = F.Module(src, 'pyramid/security.py')
+        for st in m.tree.body:
+            if isinstance(st, ast.Assign) and isinstance(st.value, ast.Constant) and isinstance(st.value.value, str):
+                out.append(st.value.value)
+        nodes = [m.find('AllPermissionsList')]
+        nodes += [F.Module(src, 'pyramid/util.py').find('is_nonstr_iter')]
+        ma = F.Module(src, 'pyramid/authorization.py')
+        nodes += [ma.find('ACLHelper'), ma.find('ACLAuthorizationPolicy')]
+        for nd in nodes:
+            if nd is None:
+                continue
+            for n in ast.walk(F.strip_doc(nd)):
+                if isinstance(n, ast.Constant) and isinstance(n.value, str):
+                    out.append(n.value)
+    except Exception:
+        pass
+    res = []
+    for x in out:
+        if x and len(x) <= 48 and x not in res and x not in PERMS:
+            res.append(x)
+    return res
+
+
+def pool():
+    if not _POOL:
+        from harness.common import build
+        _POOL.extend(harvest(build.SRC) or ['__no_permission_required__'])
+    return _POOL
+
+
+def pick_perm(rng):
+    return rng.choice(pool()) if rng.random() < 0.12 else rng.choice(PERMS)
 FORMS = (False, True, 'gen', 'tuple')     # values of loc['callable']: list / callable->list / generator method / tuple
 
 
@@ -65,10 +112,12 @@ def gen_perms(rng):
     r = rng.random()
     if r < 0.15:
         return 'ALL'
-    if r < 0.45:
-        return rng.choice(PERMS)                      # bare string
+    if r < 0.40:
+        return pick_perm(rng)                         # bare string
+    if r < 0.50:
+        return {'kind': 'strsub', 'names': [pick_perm(rng)]}      # a single name that is an instance of a str SUBCLASS
     k = rng.choice([0, 1, 1, 2, 2, 3])
-    return {'kind': rng.choice(['list', 'tuple']), 'names': [rng.choice(PERMS) for _ in range(k)]}
+    return {'kind': rng.choice(['list', 'tuple']), 'names': [pick_perm(rng) for _ in range(k)]}
 
 
 def gen_case(rng):
@@ -93,7 +142,9 @@ def gen_case(rng):
     principals = rng.sample(PRINCIPALS, k)
     # resources that are falsy (an empty dict-like folder): truthiness must not matter
     falsy = [rng.random() < 0.15 for _ in lin]
-    return {'lineage': lin, 'principals': principals, 'permission': rng.choice(PERMS), 'falsy': falsy}
+    # arguments passed as instances of a str subclass (equal to, but not of the exact type of, the plain strings)
+    sub = [w for w in ('permission', 'principals') if rng.random() < 0.1]
+    return {'lineage': lin, 'principals': principals, 'permission': pick_perm(rng), 'falsy': falsy, 'sub': sub}
 
 
 def _small_scope():
@@ -153,6 +204,13 @@ def valid(case):
                     return False
                 if not (isinstance(a[2], str) and a[2] != '' or isinstance(a[2], dict)):
                     return False
+                if isinstance(a[2], dict):
+                    if a[2]['kind'] not in ('list', 'tuple', 'strsub') or not all(isinstance(x, str) and x for x in a[2]['names']):
+                        return False
+                    if a[2]['kind'] == 'strsub' and len(a[2]['names']) != 1:
+                        return False
+        if not all(w in ('permission', 'principals') for w in case.get('sub', [])):
+            return False
         return isinstance(case['permission'], str) and case['permission'] != '' and \
             all(isinstance(p, str) and p for p in case['principals'])
     except Exception:
@@ -187,7 +245,8 @@ def from_wire(case, raw):
     # (always 1 while C11_generated_*_is_model compile)
     # [ACLHelper; ACLAuthorizationPolicy; request.has_permission + security.principals_allowed_by_permission (legacy
     #  policies in a real registry: they end in ACLAuthorizationPolicy); view_execution_permitted]
-    model = [dec, sorted(allowed), pdec, sorted(pallowed), pdec, sorted(pallowed), pdec]
+    model = [dec, sorted(allowed), pdec, sorted(pallowed), pdec, sorted(pallowed),
+             NA if case['permission'] == RESERVED else pdec]
     same = 1 if (dec == hdec and sorted(allowed) == sorted(hallowed)) else 0
     return {'model': model, 'spec': [spec_granted, wf, same]}
 
@@ -198,11 +257,25 @@ _impl = {}
 
 def setup(tier):
     from pyramid.authorization import ACLHelper, ALL_PERMISSIONS, Allow, Deny
+    from pyramid.security import NO_PERMISSION_REQUIRED
+    global RESERVED
+    RESERVED = NO_PERMISSION_REQUIRED
     _impl.update(helper=ACLHelper(), ALL=ALL_PERMISSIONS, Allow=Allow, Deny=Deny, world=entry.World(PERMS))
 
 
 class _Loc:
     pass
+
+
+class _S(str):
+    """a str subclass (like a member of a str-mixin Enum): equal to the plain string, of another exact type"""
+
+
+def _args(case):
+    sub = case.get('sub') or []
+    ps = [(_S(x) if 'principals' in sub else x) for x in case['principals']]
+    p = _S(case['permission']) if 'permission' in sub else case['permission']
+    return ps, p
 
 
 class _EmptyFolder(dict):
@@ -224,6 +297,8 @@ def _build(case):
                     pv = _impl['ALL']
                 elif isinstance(p, str):
                     pv = p
+                elif p['kind'] == 'strsub':
+                    pv = _S(p['names'][0])
                 elif p['kind'] == 'tuple':
                     pv = tuple(p['names'])
                 else:
@@ -276,16 +351,19 @@ def run_impl(case):
         setup('quick')
     locs = _build(case)
     decs, sets = [], []
+    ps, p = _args(case)
     for f in _deciders():
         try:
-            decs.append(_dec(f(locs[0], list(case['principals']), case['permission']), locs))
+            decs.append(_dec(f(locs[0], list(ps), p), locs))
         except Exception as e:
             decs.append(['EXC', type(e).__name__])
     for f in _reporters():
         try:
-            sets.append(sorted(f(locs[0], case['permission'])))
+            sets.append(sorted(str(x) for x in f(locs[0], p)))
         except Exception as e:
             sets.append(['EXC', type(e).__name__])
+    if case['permission'] == RESERVED:
+        decs[3] = NA
     return [decs[0], sets[0], decs[1], sets[1], decs[2], sets[2], decs[3]]
 
 
@@ -297,6 +375,8 @@ def spec_holds(case, obs, spec):
         return None
     spec_granted, wf = spec[0], spec[1]
     for dec in (obs[0], obs[2], obs[4], obs[6]):
+        if dec == NA:
+            continue
         if dec and dec[0] == 'EXC':
             return False
         if (dec[0] == 1) != (spec_granted == 1):
@@ -309,7 +389,7 @@ def spec_holds(case, obs, spec):
                 return False
             for q in allowed:
                 locs = locs or _build(case)
-                if not deciders[k](locs[0], [q, 'system.Everyone'], case['permission']):
+                if not deciders[k](locs[0], [q, 'system.Everyone'], _args(case)[1]):
                     return False
     return True
 
@@ -324,6 +404,12 @@ def kinds(case, obs):
     k.append('depth%d' % len(case['lineage']))
     if any(case.get('falsy') or []):
         k.append('has-falsy-resource')
+    if case.get('sub'):
+        k.append('str-subclass-argument')
+    if any(isinstance(a[2], dict) and a[2]['kind'] == 'strsub' for loc in case['lineage'] if loc for a in loc['aces']):
+        k.append('has-str-subclass-permission')
+    if case['permission'] not in PERMS:
+        k.append('permission-name-from-source')
     forms = {loc['callable'] for loc in case['lineage'] if loc is not None}
     for f, name in ((True, 'has-callable-acl'), ('gen', 'has-generator-acl'), ('tuple', 'has-tuple-acl')):
         if f in forms:
